@@ -303,6 +303,16 @@ func (x *g) genMethod(sv *spec.Service, j int, used map[string]bool) {
 			e.Timeout, e.Temporary, e.Fault = false, false, false
 			x.s.AddFeature("errors-inline-types-pair")
 		}
+		// one error name means one Go type per service: a name another method of this service already uses keeps
+		// its name only when both use the default error type (then the two methods may still map it to different
+		// statuses); otherwise it gets the method's index
+		for _, om := range sv.Methods {
+			for _, oe := range om.Errors {
+				if oe.Name == e.Name && (oe.Type != nil || e.Type != nil) {
+					e.Name = fmt.Sprintf("%s_m%d", e.Name, j)
+				}
+			}
+		}
 		m.Errors = append(m.Errors, e)
 		x.s.AddFeature("method-error")
 	}
